@@ -1,6 +1,6 @@
 #!/bin/bash
 # usage: seedstore.sh <ID> <caught-initially yes|no> <caught-now yes|no> "<summary>" "<strengthening>"
-ID=$1; R=${6:-1}; D=/verif/seeded/$ID; W=/tmp/wt-$ID; if [ "$R" = "2" ]; then D=/verif/seeded/$ID-r2; W=/tmp/w2-$ID; fi
+ID=$1; R=${6:-1}; D=/verif/seeded/$ID; W=/tmp/wt-$ID; if [ "$R" != "1" ]; then D=/verif/seeded/$ID-r$R; W=/tmp/w$R-$ID; fi
 mkdir -p $D
 cp $W/seed_patch.diff $D/patch.diff
 cp $W/seed_demo.md $D/demo.md
@@ -8,7 +8,7 @@ python3 - "$@" <<'PY'
 import json,sys
 i,ci,cn,summ,stren=sys.argv[1:6]
 rnd=sys.argv[6] if len(sys.argv)>6 else '1'
-d=f'/verif/seeded/{i}' + ('-r2' if rnd=='2' else '')
+d=f'/verif/seeded/{i}' + (f'-r{rnd}' if rnd!='1' else '')
 json.dump({"property":i,"author":"independent sub-agent (given only the property text and a scratch worktree)","files":[l[6:].strip() for l in open(d+'/patch.diff') if l.startswith('+++ b/')],
  "summary":summ,"compiles":True,"repository_tests_pass":True,"caught_by_check_as_first_built":ci=="yes","caught_by_current_check":cn=="yes","strengthening":stren,
  "round":int(rnd),"how_to_reproduce":f"git -C /repo apply {d}/patch.diff && ./check {i} --tier quick; git -C /repo checkout -- ."}, open(d+'/meta.json','w'), indent=1)
